@@ -161,8 +161,10 @@ def run_maximum_color(data, flags):
 
     with scratch_dir("verif-mc-") as d:
         d = Path(d)
-        (d / "in.ttf").write_bytes(data)
-        rc, out = build.run_cli(list(flags) + ["--build_dir", d / "build", d / "in.ttf"], cwd=d, prog="nanoemoji.maximum_color")
+        # named as nanoemoji names it: CFF flavours are .otf (F20)
+        name = "in.otf" if data[:4] == b"OTTO" else "in.ttf"
+        (d / name).write_bytes(data)
+        rc, out = build.run_cli(list(flags) + ["--build_dir", d / "build", d / name], cwd=d, prog="nanoemoji.maximum_color")
         f = d / "build" / "Font.ttf"
         return rc, out, (f.read_bytes() if rc == 0 and f.is_file() else None)
 
@@ -347,6 +349,8 @@ def run_e2e(report, n, rng, jobs=6):
         if sub.random() < 0.4:
             flags += ["--bitmaps"]
         strip = sub.random() < 0.5
+        if kind.startswith("cff") and i < 10 and "--bitmaps" not in flags:
+            flags += ["--bitmaps"]  # the first charstring fonts always take the bitmap path too (F20)
         plans.append((i, kind, sub, flags, strip))
 
     def work(plan):
